@@ -114,7 +114,7 @@ pub(crate) mod __verif_kani {
         check_after(&h, len, &c, r, i0 + 1);
     }
 
-    //@ kind=B props=C03 tier=thorough bound=2_high_words(128_bits)_each_with_at_most_4_ones_at_arbitrary_positions,low_width=0 fn=EliasFanoCursor::advance_by : from ANY cursor satisfying the invariant and for EVERY k: usize (including k == 0, 1, > 64 and values that would overflow idx + k): index == min(idx+k,len), element == element idx+k (None when exhausted), invariant holds again
+    //@ kind=B props=C03 bound=2_high_words(128_bits)_each_with_at_most_4_ones_at_arbitrary_positions,low_width=0 fn=EliasFanoCursor::advance_by : from ANY cursor satisfying the invariant and for EVERY k: usize (including k == 0, 1, > 64 and values that would overflow idx + k): index == min(idx+k,len), element == element idx+k (None when exhausted), invariant holds again
     #[kani::proof]
     #[kani::unwind(10)]
     #[kani::stub(crate::util::broadword::select_in_word, contract_select_in_word)]
